@@ -74,6 +74,8 @@ type Ctx struct {
 	out       string
 	sampleCap int
 	maxViol   int
+
+	inflightFile *os.File
 }
 
 // Quick reports whether the tier is quick.
@@ -171,7 +173,38 @@ func (c *Ctx) NotExhaustive(why string) {
 func (c *Ctx) OutOfBudget() bool { return time.Now().After(c.deadline) }
 
 // InFlight names the case being evaluated, for the watchdog and for panics.
-func (c *Ctx) InFlight(s string) { c.inflight.Store(s) }
+// When the driver re-runs a crashed shard with -inflight-file, the name is
+// also written to that file before the case runs, so that the input of a
+// hard crash (fatal error, stack overflow) can be recovered.
+func (c *Ctx) InFlight(s string) {
+	c.inflight.Store(s)
+	if c.inflightFile != nil {
+		c.persist(s)
+	}
+}
+
+// Checkpoint is InFlight for coarse units of work (one scenario): the name is
+// always written to <out>.inflight, so that a hard crash inside the unit can be
+// attributed to it without a second run.
+func (c *Ctx) Checkpoint(s string) {
+	c.inflight.Store(s)
+	if c.inflightFile == nil && c.out != "" {
+		f, err := os.OpenFile(c.out+".inflight", os.O_CREATE|os.O_RDWR|os.O_TRUNC, 0o644)
+		if err == nil {
+			c.inflightFile = f
+		}
+	}
+
+	if c.inflightFile != nil {
+		c.persist(s)
+	}
+}
+
+func (c *Ctx) persist(s string) {
+	b := []byte(s)
+	_, _ = c.inflightFile.WriteAt(b, 0)
+	_ = c.inflightFile.Truncate(int64(len(b)))
+}
 
 // Violation records a violation.  At most a bounded number of distinct keys
 // is kept in detail; all are counted.
@@ -199,6 +232,10 @@ func (c *Ctx) Violations() int64 { return c.res.ViolationCount }
 
 // Try calls f and returns the recovered panic value and stack, if any.
 func Try(f func()) (pv any, stack string) {
+	// A fault at a non-nil address (unsafe pointer arithmetic gone wrong)
+	// becomes a recoverable panic instead of killing the worker.
+	old := debug.SetPanicOnFault(true)
+	defer debug.SetPanicOnFault(old)
 	defer func() {
 		if r := recover(); r != nil {
 			pv = r
@@ -285,6 +322,7 @@ func Main(body func(c *Ctx)) {
 	seed := flag.Int64("seed", 0, "seed (unused by exhaustive checks)")
 	budget := flag.Duration("budget", 0, "soft time budget (0 = tier default)")
 	stall := flag.Duration("stall", 180*time.Second, "watchdog stall time")
+	inflightPath := flag.String("inflight-file", "", "write every in-flight case name to this file (crash triage)")
 	flag.Parse()
 
 	c := &Ctx{
@@ -306,6 +344,15 @@ func Main(body func(c *Ctx)) {
 		Samples: []any{}, Violations: []Violation{}, Notes: []string{},
 	}
 	c.inflight.Store("")
+	if *inflightPath != "" {
+		f, err := os.OpenFile(*inflightPath, os.O_CREATE|os.O_RDWR|os.O_TRUNC, 0o644)
+		if err != nil {
+			fmt.Fprintln(os.Stderr, "runlib: inflight file:", err)
+			os.Exit(2)
+		}
+
+		c.inflightFile = f
+	}
 
 	b := *budget
 	if b == 0 {
